@@ -148,7 +148,7 @@ impl Leg for Python {
         classify(&mut v, &seq, c.w, c.m, &want);
         v.class("python");
         match crate::pyworker::ask(&serde_json::json!({"op": "mins", "w": c.w, "m": c.m, "seq": crate::pyworker::hex(&seq)})).and_then(|r| super::c01::parse_tuples_u64(&r, 3)) {
-            Err(e) => v.fail("python-worker", e),
+            Err(e) => crate::pyworker::record_error(&mut v, e),
             Ok(got) => {
                 let got: Vec<(u64, usize, usize)> = got.iter().map(|t| (t[0], t[1] as usize, t[2] as usize)).collect();
                 let mut vv = Verdict::new();
@@ -176,6 +176,7 @@ pub fn run(ctx: &mut Ctx) {
     );
     let n = ctx.share(ctx.tier.pick(60_000, 2_000_000));
     ctx.run_leg::<Random>(n, false, 4000);
+    crate::pyworker::infra_inconclusive(ctx);
 }
 
 pub fn replay(leg: &str, case: &serde_json::Value) -> Option<Result<Verdict, String>> {
